@@ -20,6 +20,8 @@ from harness.session import Session, approx_pos
 
 PROP = "C01"
 LEVEL = "exploration"
+TECHNIQUE = 'wire monitor: independent lexer + modal G-code interpreter fed by a recording writer, compared with builder.position/distance_mode after every call; second observer gscrib.printrun.gcoder'
+LEVEL_TEXT = 'Held on the random call trees of this run (counts in evidence). Exploration is the right level: the property quantifies over unbounded histories, which a monitor can only sample.'
 RULE = ("random call trees over the motion API (move/rapid/absolute-bypass/set_axis/auto_home/"
         "probe/set_distance_mode/nested absolute_mode()/relative_mode() contexts/every tracer "
         "shape), compared after every call; a case is non-trivial when its history contains a "
